@@ -31,3 +31,33 @@ Example C09_truncate_nonvacuous :
   weight (truncate_machine (S:=NSR) [0; 1] 2) [1; 0] = 1%N /\ weight (truncate_machine (S:=NSR) [0; 1] 2) [1; 0; 1] = 0%N.
 Proof. vm_compute. split; reflexivity. Qed.
 Print Assumptions C09_truncate_nonvacuous.
+
+(* The product construction of CFG.__matmul__ for letter-to-letter machines (every arc reads one symbol and
+   writes one symbol: intersection with an automaton or a string, truncate_length, relabelling transducers),
+   model/BarHillel.v, with any injective naming of the triple nonterminals.  If f solves G, the valuation
+      (p, X, q) |-> sum over xs of f X xs * (weight of the paths p -> q reading xs and writing ys)
+   solves the product grammar, and its start symbol gives ys the weight  sum over xs of G(xs) * M(xs, ys)
+   (M in the path-sum semantics trel of model/Fst.v).  Every commutative semiring, cyclic grammars included. *)
+From GV.model Require Import Cfg Fst BarHillel.
+From GV.proofs Require FoldProofs BarHillelProofs ProductProofs.
+Theorem C09_product_grammar : forall (S : SR) (nt tm : nat -> nat -> nat -> nat) (s' : nat) (states : list nat)
+    (init fin : list (nat * S)) (arcs : list (larc S)) (G : grammar S) (start : nat) (V : list nat) (f : nat -> list nat -> S),
+  (forall p X q p' X' q', nt p X q = nt p' X' q' -> p = p' /\ X = X' /\ q = q') ->
+  (forall p a q p' a' q', tm p a q = tm p' a' q' -> p = p' /\ a = a' /\ q = q') ->
+  (forall p X q p' a q', nt p X q <> tm p' a q') ->
+  (forall p X q, nt p X q <> s') -> (forall p a q, tm p a q <> s') ->
+  NoDup states -> NoDup V ->
+  (forall x, In x arcs -> In (asrc x) states /\ In (adst x) states /\ In (ain x) V) ->
+  (forall i, In i init -> In (fst i) states) -> (forall k, In k fin -> In (fst k) states) ->
+  (forall r a, In r G -> In (T a) (rbody r) -> In a V) ->
+  FoldProofs.solves S G f ->
+  FoldProofs.solves S (bar_hillel nt tm s' states init fin arcs G start) (BarHillelProofs.Fv S nt tm s' states init fin arcs G start V f) /\
+  (forall ys fuel, length ys <= fuel ->
+     BarHillelProofs.Fv S nt tm s' states init fin arcs G start V f s' ys =
+     bsum (ProductProofs.words_eq V (length ys)) (fun xs => smul (f start xs) (trel (BarHillelProofs.lift_fst S init fin arcs) fuel xs ys))).
+Proof.
+  intros S nt tm s' states init fin arcs G start V f H1 H2 H3 H4 H5 H6 H7 H8 H9 H10 H11 Hf. split.
+  - exact (BarHillelProofs.bar_hillel_solves S nt tm s' states init fin arcs G start V f H1 H2 H3 H4 H5 H6 H7 H8 H9 H10 H11 Hf).
+  - intros ys fuel Hl. exact (BarHillelProofs.bar_hillel_start_trel S nt tm s' states init fin arcs G start V f ys fuel Hl).
+Qed.
+Print Assumptions C09_product_grammar.
